@@ -1139,7 +1139,7 @@ REGISTRY = {
     'C02': dict(modules=['LibconfigModel.Properties.C02', 'LibconfigModel.Properties.C02Complete', 'LibconfigModel.Properties.C02Denote', 'LibconfigModel.Properties.Bridge', 'LibconfigModel.Properties.Skeleton'], run=run_C02, assumptions=COMMON_ASSUMPTIONS),
     'C04': dict(modules=['LibconfigModel.Properties.CFlow', 'LibconfigModel.Properties.CSource', 'LibconfigModel.Properties.C04', 'LibconfigModel.Properties.C04Read', 'LibconfigModel.Properties.Bridge'], run=run_C04, assumptions=COMMON_ASSUMPTIONS),
     'C05': dict(modules=['LibconfigModel.Properties.CFlow', 'LibconfigModel.Properties.CSource', 'LibconfigModel.Properties.C05', 'LibconfigModel.Properties.Bridge'], run=run_C05, assumptions=COMMON_ASSUMPTIONS),
-    'C06': dict(modules=['LibconfigModel.Properties.C06'], run=run_C06, assumptions=COMMON_ASSUMPTIONS),
+    'C06': dict(modules=['LibconfigModel.Properties.CFlow', 'LibconfigModel.Properties.C06'], run=run_C06, assumptions=COMMON_ASSUMPTIONS),
     'C07': dict(modules=['LibconfigModel.Properties.CSource', 'LibconfigModel.Properties.C07', 'LibconfigModel.Properties.Bridge'], run=run_C07, assumptions=COMMON_ASSUMPTIONS),
     'C16': dict(modules=['LibconfigModel.Properties.CFlow', 'LibconfigModel.Properties.C16'], run=run_C16, assumptions=COMMON_ASSUMPTIONS),
     'C19': dict(modules=['LibconfigModel.Properties.CSource', 'LibconfigModel.Properties.C19', 'LibconfigModel.Properties.Bridge'], run=run_C19, assumptions=COMMON_ASSUMPTIONS),
